@@ -1,7 +1,4 @@
-use std::{
-    io::{BufRead, Chain, Cursor, ErrorKind, Read, Result as IoResult},
-    slice,
-};
+use std::io::{BufRead, Chain, Cursor, ErrorKind, Read, Result as IoResult};
 
 use super::encoding::Encoding;
 
@@ -63,12 +60,29 @@ impl<R: BufRead> Decoder<R> {
         // Reading up to b'\n' will miss the final b'\0' for an UTF-16LE encoded
         // string so we need to read an additional byte.
         if self.encoding == Encoding::Utf16LE && self.read_buf.ends_with(b"\n") {
-            let mut byte = 0;
-            self.inner.read_exact(slice::from_mut(&mut byte))?;
-            self.read_buf.push(byte);
+            // The input may end right after the b'\n'
+            self.read_byte()?;
         }
 
         Ok(Some(self.curr_line()))
+    }
+
+    /// Reads a single byte into `read_buf`, if there is one left.
+    fn read_byte(&mut self) -> IoResult<Option<u8>> {
+        loop {
+            return match self.inner.fill_buf() {
+                Ok([byte, ..]) => {
+                    let byte = *byte;
+                    self.inner.consume(1);
+                    self.read_buf.push(byte);
+
+                    Ok(Some(byte))
+                }
+                Ok([]) => Ok(None),
+                Err(ref err) if err.kind() == ErrorKind::Interrupted => continue,
+                Err(err) => Err(err),
+            };
+        }
     }
 
     pub fn curr_line(&mut self) -> &str {
